@@ -8,6 +8,8 @@
 #include <unordered_map>
 #include <functional>
 #include <sstream>
+#include <vector>
+#include <algorithm>
 
 
 namespace sqf
@@ -85,6 +87,29 @@ namespace sqf
             }
 
             std::unordered_map<sqf::runtime::value, sqf::runtime::value>& map() { return m_map; }
+
+            // Walks the values of the map (the keys are private copies, see copy_key in ops_hashmap.cpp).
+            bool recursion_test_(std::vector<const sqf::runtime::data*>& visited) const override
+            {
+                for (auto& it : m_map)
+                {
+                    if (it.second.empty()) { continue; }
+                    const sqf::runtime::data* child = it.second.data().get();
+                    if (std::find(visited.begin(), visited.end(), child) != visited.end())
+                    {
+                        return false;
+                    }
+                    visited.push_back(child);
+                    if (!child->recursion_test_(visited))
+                    {
+                        return false;
+                    }
+                    visited.pop_back();
+                }
+                return true;
+            }
+            // Returns true, if no recursion is present.
+            bool recursion_test() const { std::vector<const sqf::runtime::data*> vec; return recursion_test_(vec); }
         };
     }
 
